@@ -102,8 +102,19 @@ ORDER = [("parserinfo", n) for n in ("jump", "weekday", "month", "hms", "ampm", 
         [("parser", n) for n in ("_could_be_tzname", "_ampm_valid", "_adjust_ampm", "_parse_min_sec", "_parsems",
                                  "_assign_hms", "_find_hms_idx", "_parse_hms")]
 # functions that mutate a parameter object: the final object is returned next to the return value
-MUTATES = {("parserinfo", "validate"): "res", ("parser", "_assign_hms"): "res", ("_ymd", "append_str"): "self",
-           ("_ymd", "append_dec"): "self", ("_ymd", "append_int"): "self"}
+MUTATES = {("parserinfo", "validate"): ("res",), ("parser", "_assign_hms"): ("res",), ("_ymd", "append_str"): ("self",),
+           ("_ymd", "append_dec"): ("self",), ("_ymd", "append_int"): ("self",),
+           }   # (the statement / call forms needed for _parse_numeric_token are implemented: adding it to SIGS / ORDER /
+               #  MUTATES[("parser", "_parse_numeric_token")] = ("ymd", "res") translates it to 280 lines; its equality with
+               #  Parse.parse_numeric was not proved in the time available, so it stays hand-modelled and pinned)
+
+
+def muts(fn):
+    return MUTATES.get((fn.cls, fn.name), ())
+
+
+def mut_tail(fn):
+    return "".join(", v_%s" % m for m in muts(fn))
 PY_NAME = {"append_str": "append", "append_dec": "append", "append_int": "append"}
 YMD_SETTERS = {"century_specified": ("ymd_set_century", BOOL), "mstridx": ("ymd_set_m", OPTINT),
                "dstridx": ("ymd_set_d", OPTINT), "ystridx": ("ymd_set_y", OPTINT)}
@@ -209,6 +220,8 @@ def as_bool(t, ty, node):
         return t
     if ty == OPTSTR:
         return "(ostr_truthy %s)" % t
+    if ty == YMD:
+        return "(ymd_nonempty %s)" % t
     if isinstance(ty, tuple) and ty[0] == "rem":
         return "(frac_nonzero %s)" % ty[1]      # value - int(value) is non-zero
     bail("a condition must be a bool (truthiness of other values is not modelled)", node)
@@ -370,6 +383,20 @@ def compare(fn, e, env, k):
     lm = label_membership(fn, e, env)
     if lm is not None:
         return k(lm, BOOL)
+    if (len(e.ops) == 1 and isinstance(e.ops[0], (ast.In, ast.NotIn)) and isinstance(e.comparators[0], ast.Tuple)
+            and all(isinstance(x, ast.Constant) for x in e.comparators[0].elts)):
+        consts = [x.value for x in e.comparators[0].elts]
+        neg = isinstance(e.ops[0], ast.NotIn)
+
+        def kmem(t, ty):
+            if ty == INT and all(isinstance(c, int) and not isinstance(c, bool) for c in consts):
+                r = "(" + " || ".join("(%s =? %s)" % (t, lit(c)) for c in consts) + ")"
+            elif ty == STR and all(isinstance(c, str) for c in consts):
+                r = "(" + " || ".join("(str_eqb %s %s)" % (t, str_lit(c)) for c in consts) + ")"
+            else:
+                bail("unsupported membership in a tuple", e)
+            return k("(negb %s)" % r if neg else r, BOOL)
+        return ex(fn, e.left, env, kmem)
 
     def go(i, lt, lty, acc):
         if i == len(e.ops):
@@ -479,6 +506,25 @@ def subscript(fn, e, env, k):
             return ex(fn, e.value.args[1], env, km)
         return ex(fn, e.value.args[0], env, ky)
 
+    if isinstance(e.slice, ast.Slice) and e.slice.step is None:
+        lo, hi = e.slice.lower, e.slice.upper
+        cl = lo.value if isinstance(lo, ast.Constant) and isinstance(lo.value, int) else None
+        ch = hi.value if isinstance(hi, ast.Constant) and isinstance(hi.value, int) else None
+        if (lo is not None and cl is None) or (hi is not None and ch is None) or (cl or 0) < 0 or (ch or 0) < 0:
+            bail("str slices need non-negative constant bounds", e)
+
+        def ks(t, ty):
+            if ty != STR:
+                bail("slice of a non-str", e)
+            if lo is None and hi is not None:
+                return k("(firstn %d %s)" % (ch, t), STR)
+            if lo is not None and hi is None:
+                return k("(skipn %d %s)" % (cl, t), STR)
+            if lo is not None and hi is not None and cl <= ch:
+                return k("(slice %d %d %s)" % (cl, ch, t), STR)
+            bail("unsupported slice", e)
+        return ex(fn, e.value, env, ks)
+
     def kv(vt, vty):
         def ki(it, ity):
             r = fn.tmp()
@@ -497,9 +543,26 @@ def subscript(fn, e, env, k):
     return ex(fn, e.value, env, kv)
 
 
+def resolve_target(fn, f, env, args0):
+    """which translated function does the call f(...) denote?  -> (cls, name, receiver text or None)"""
+    if not isinstance(f, ast.Attribute) or not isinstance(f.value, ast.Name):
+        return None
+    v = f.value
+    if v.id == "info" and f.attr in SIGS["parserinfo"]:
+        return ("parserinfo", f.attr, None)
+    if v.id == "self" and f.attr in SIGS[fn.cls]:
+        return (fn.cls, f.attr, "v_self" if fn.cls == "_ymd" else None)
+    if env.get(v.id) == YMD and v.id != "self":
+        if f.attr == "append":
+            return ("_ymd", "append", "v_" + v.id)
+        if f.attr in SIGS["_ymd"]:
+            return ("_ymd", f.attr, "v_" + v.id)
+    return None
+
+
 def call(fn, e, env, k):
     f = e.func
-    if e.keywords:
+    if e.keywords and resolve_target(fn, f, env, e.args) is None:
         bail("keyword arguments", e)
     if isinstance(f, ast.Name):
         if f.id == "len" and len(e.args) == 1:
@@ -550,6 +613,8 @@ def call(fn, e, env, k):
         bail("unsupported function " + f.id, e)
     if isinstance(f, ast.Attribute):
         v = f.value
+        if (f.attr == "find" and len(e.args) == 1 and isinstance(e.args[0], ast.Constant) and e.args[0].value == "."):
+            return ex(fn, v, env, lambda t, ty: k("(find_dot %s 0)" % t, INT) if ty == STR else bail("find on non-str", e))
         if f.attr == "isdigit" and not e.args:
             return ex(fn, v, env, lambda t, ty: k("(py_isdigit %s)" % t, BOOL) if ty == STR
                       else bail("isdigit of non-str", e))
@@ -573,34 +638,52 @@ def call(fn, e, env, k):
                 r = fn.tmp()
                 return "bind (to_decimal %s) (fun %s =>\n%s)" % (t, r, k(r, DEC))
             return ex(fn, e.args[0], env, kdec)
-        # info.<method>(args) / self.<method>(args) of a translated function
-        target = None
-        if isinstance(v, ast.Name) and v.id == "info" and f.attr in SIGS["parserinfo"]:
-            target = ("parserinfo", f.attr)
-        if isinstance(v, ast.Name) and v.id == "self" and f.attr in SIGS[fn.cls]:
-            target = (fn.cls, f.attr)
-        if target is not None:
-            params, rty = SIGS[target[0]][target[1]]
-            params = [p for p in params if p[1] is not None]
-            if len(e.args) != len(params):
-                bail("wrong number of arguments", e)
+        # calls of translated functions: info.f(..), self.f(..), ymd.f(..)
+        tgt = resolve_target(fn, f, env, e.args)
+        if tgt is not None:
+            tcls, tname, recv = tgt
+            if tname == "append":
+                bail("append is a statement", e)
+            params, rty = SIGS[tcls][tname]
+            pnames = [p[0] for p in params]
+            given = {}
+            if len(e.args) > len(params):
+                bail("too many arguments", e)
+            for p, a in zip(params, e.args):
+                given[p[0]] = a
+            for kw in e.keywords:
+                if kw.arg not in pnames or kw.arg in given:
+                    bail("bad keyword argument", e)
+                given[kw.arg] = kw.value
+            order = [p for p in params if p[1] is not None]
+            for p in params:
+                if p[1] is None and not (p[0] in given and isinstance(given[p[0]], ast.Name) and given[p[0]].id == "info"):
+                    bail("the parserinfo argument must be `info`", e)
 
             def go(i, acc):
-                if i == len(params):
-                    extra = " v_cur" if target == ("parserinfo", "convertyear") else ""
-                    extra += " v_self" if target[0] == "_ymd" else ""
+                if i == len(order):
+                    extra = " v_cur" if (tcls, tname) in (("parserinfo", "convertyear"), ("parserinfo", "validate")) else ""
+                    extra += (" " + recv) if recv else ""
                     r = fn.tmp()
-                    return "bind (%s%s %s) (fun %s =>\n%s)" % (fname(*target), extra, " ".join(acc), r, k(r, rty))
+                    if (tcls, tname) in MUTATES:
+                        bail("a mutating function used as an expression", e)
+                    if (tcls, tname) in PROPERTIES:
+                        bail("property called", e)
+                    return "bind (%s%s %s) (fun %s =>\n%s)" % (fname(tcls, tname), extra, " ".join(acc), r, k(r, rty))
+                pn, want, dflt = order[i]
+                if pn not in given:
+                    if dflt is None:
+                        bail("missing argument " + pn, e)
+                    return go(i + 1, acc + [dflt])
+
                 def ka(t, ty):
-                    want = params[i][1]
                     if (ty, want) in ((OPTINT, INT), (OPTSTR, STR)):
-                        # passing None where the callee uses the value: TypeError / AttributeError (reported as TypeError)
                         o = fn.tmp("a")
                         return "match %s with\n| Some %s =>\n%s\n| None => Err TypeError\nend" % (t, o, go(i + 1, acc + [o]))
                     if ty != want:
                         bail("argument type %s, expected %s" % (ty, want), e)
                     return go(i + 1, acc + [t])
-                return ex(fn, e.args[i], env, ka)
+                return ex(fn, given[pn], env, ka)
             return go(0, [])
     bail("unsupported call", e)
 
@@ -670,14 +753,13 @@ def block(fn, stmts, env, kend):
                 and isinstance(v.args[0], ast.Name) and env.get(v.args[0].id) == "strids" and fn.cls == "_ymd"
                 and fn.ret == ("tuple", (OPTINT, OPTINT, OPTINT))):
             return "resolve_from_stridxs v_self"     # hand-modelled (pinned) callee, same result type
-        mut = MUTATES.get((fn.cls, fn.name))
-        if mut is not None:
-            return ex(fn, s.value, env, lambda t, ty: "Ok (%s, v_%s)" % (coerce_ret(fn, t, ty, s), mut))
+        if muts(fn):
+            return ex(fn, s.value, env, lambda t, ty: "Ok (%s%s)" % (coerce_ret(fn, t, ty, s), mut_tail(fn)))
         return ex(fn, s.value, env, lambda t, ty: "Ok %s" % coerce_ret(fn, t, ty, s))
     if (isinstance(s, ast.Assign) and len(s.targets) == 1 and isinstance(s.targets[0], ast.Attribute)
             and isinstance(s.targets[0].value, ast.Name) and env.get(s.targets[0].value.id) == YMD):
         obj, attr = s.targets[0].value.id, s.targets[0].attr
-        if attr not in YMD_SETTERS or MUTATES.get((fn.cls, fn.name)) != obj:
+        if attr not in YMD_SETTERS or obj not in muts(fn):
             bail("unsupported attribute assignment", s)
         setter, aty = YMD_SETTERS[attr]
 
@@ -691,7 +773,7 @@ def block(fn, stmts, env, kend):
     if (isinstance(s, ast.Expr) and isinstance(s.value, ast.Call) and isinstance(s.value.func, ast.Attribute)
             and s.value.func.attr == "append" and len(s.value.args) == 1 and not s.value.keywords
             and ast.dump(s.value.func.value) == ast.dump(ast.parse("super(self.__class__, self)", mode="eval").body)
-            and env.get("self") == YMD and MUTATES.get((fn.cls, fn.name)) == "self"):
+            and env.get("self") == YMD and "self" in muts(fn)):
         # list.append on the underlying list
         return ex(fn, s.value.args[0], env, lambda t, ty: "let v_self := ymd_push v_self %s in\n%s" % (t, cont(env))
                   if ty == INT else bail("only ints are stored in _ymd", s))
@@ -702,7 +784,7 @@ def block(fn, stmts, env, kend):
     if (isinstance(s, ast.Assign) and len(s.targets) == 1 and isinstance(s.targets[0], ast.Attribute)
             and isinstance(s.targets[0].value, ast.Name) and env.get(s.targets[0].value.id) == RES):
         obj, attr = s.targets[0].value.id, s.targets[0].attr
-        if attr not in RES_ATTRS or RES_ATTRS[attr][2] is None or MUTATES.get((fn.cls, fn.name)) != obj:
+        if attr not in RES_ATTRS or RES_ATTRS[attr][2] is None or obj not in muts(fn):
             bail("unsupported attribute assignment", s)
         _g, aty, setter = RES_ATTRS[attr]
 
@@ -735,7 +817,7 @@ def block(fn, stmts, env, kend):
         # (res.a, res.b) = self.f(...)
         tg = s.targets[0].elts
         obj = tg[0].value.id
-        if any(x.value.id != obj for x in tg) or MUTATES.get((fn.cls, fn.name)) != obj:
+        if any(x.value.id != obj for x in tg) or obj not in muts(fn):
             bail("unsupported attribute tuple assignment", s)
 
         def ktup(t, ty):
@@ -769,6 +851,19 @@ def block(fn, stmts, env, kend):
         r = fn.tmp("r")
         return "bind (split2_dot v_%s) (fun %s => let '(v_%s, v_%s) := %s in\n%s)" % (
             c.func.value.id, r, names[0], names[1], r, cont(env2))
+    if (isinstance(s, ast.Assign) and len(s.targets) == 1 and isinstance(s.targets[0], ast.Tuple)
+            and all(isinstance(x, ast.Name) for x in s.targets[0].elts) and isinstance(s.value, ast.Call)
+            and resolve_target(fn, s.value.func, env, s.value.args) is not None):
+        names = [x.id for x in s.targets[0].elts]
+
+        def kun(t, ty):
+            if not (isinstance(ty, tuple) and ty[0] == "tuple" and len(ty[1]) == len(names)):
+                bail("tuple assignment from a non-tuple", s)
+            env2 = dict(env)
+            for nm, xt in zip(names, ty[1]):
+                env2[nm] = xt
+            return "let '(%s) := %s in\n%s" % (", ".join("v_" + nm for nm in names), t, cont(env2))
+        return ex(fn, s.value, env, kun)
     if (isinstance(s, ast.Assign) and len(s.targets) == 1 and isinstance(s.targets[0], ast.Tuple)
             and all(isinstance(x, ast.Name) for x in s.targets[0].elts)):
         names = [x.id for x in s.targets[0].elts]
@@ -829,6 +924,51 @@ def block(fn, stmts, env, kend):
         name = s.target.id
         return ex(fn, s.value, env, lambda t, ty: "let v_%s := (v_%s %s %s) in\n%s" % (name, name, sym, t, cont(env))
                   if ty == INT else bail("augmented assignment of a non-int", s))
+    if isinstance(s, ast.Expr) and isinstance(s.value, ast.Call):
+        c = s.value
+        tgt = resolve_target(fn, c.func, env, c.args)
+        if tgt is None:
+            bail("unsupported expression statement", s)
+        tcls, tname, recv = tgt
+        if tname == "append":
+            # ymd.append(val[, label]): specialised on the type of val
+            if not (1 <= len(c.args) <= 2) or c.keywords or recv is None or recv[2:] not in muts(fn):
+                bail("unsupported append call", s)
+            lab = "None"
+            if len(c.args) == 2:
+                if not (isinstance(c.args[1], ast.Constant) and c.args[1].value in LABELS):
+                    bail("append label must be a constant", s)
+                lab = "(Some %s)" % LABELS[c.args[1].value]
+
+            def kap(t, ty):
+                variant = {STR: "append_str", DEC: "append_dec", INT: "append_int"}.get(ty)
+                if variant is None:
+                    bail("append of a value of type %s" % ty, s)
+                r = fn.tmp("r")
+                return "bind (%s %s %s %s) (fun %s => let '(_, %s) := %s in\n%s)" % (
+                    fname("_ymd", variant), recv, t, lab, r, recv, r, cont(env))
+            return ex(fn, c.args[0], env, kap)
+        if (tcls, tname) not in MUTATES:
+            bail("call statement of a non-mutating function", s)
+        params, _rty = SIGS[tcls][tname]
+        order = [p for p in params if p[1] is not None]
+        if c.keywords or len(c.args) != len(order):
+            bail("unsupported call statement", s)
+        mnames = MUTATES[(tcls, tname)]
+
+        def gos(i, acc):
+            if i == len(order):
+                r = fn.tmp("r")
+                objs = [a for a, p in zip(acc, order) if p[0] in mnames]
+                for ob in objs:
+                    if ob[2:] not in muts(fn):
+                        bail("callee mutates an object this function does not own", s)
+                pat = "(_, " + ", ".join(objs) + ")"
+                return "bind (%s %s) (fun %s => let '%s := %s in\n%s)" % (fname(tcls, tname), " ".join(acc), r, pat, r,
+                                                                        cont(env))
+            return ex(fn, c.args[i], env, lambda t, ty: gos(i + 1, acc + [t]) if ty == order[i][1]
+                      else bail("argument type %s, expected %s" % (ty, order[i][1]), s))
+        return gos(0, [])
     if isinstance(s, ast.If):
         nt = none_test(s.test, env)
         if nt is not None:
@@ -851,7 +991,19 @@ def block(fn, stmts, env, kend):
             a = block(fn, list(s.body) + list(rest), env, kend)
             b = block(fn, list(s.orelse) + list(rest), env, kend)
             return "if %s then (\n%s)\nelse (\n%s)" % (c, a, b)
-        return ex(fn, s.test, env, kc)
+        try:
+            t, ty = pure(fn, s.test, env)
+            return kc(t, ty)
+        except TranslateError as exn:
+            if str(exn) != "not pure":
+                raise
+        # a test that can raise / short-circuits over calls: evaluate it once as a monadic bool, then branch
+        # (the branches are emitted once instead of once per way the test can come out)
+        cexpr = ex(fn, s.test, env, lambda t, ty: "Ok %s" % as_bool(t, ty, s))
+        cv = fn.tmp("c")
+        a = block(fn, list(s.body) + list(rest), env, kend)
+        b = block(fn, list(s.orelse) + list(rest), env, kend)
+        return "bind (%s) (fun %s =>\nif %s then (\n%s)\nelse (\n%s))" % (cexpr, cv, cv, a, b)
     if isinstance(s, ast.Try):
         return try_stmt(fn, s, rest, env, kend)
     bail("unsupported statement", s)
@@ -868,7 +1020,32 @@ def opt_type_of(fn, name, node):
 
 
 def try_stmt(fn, s, rest, env, kend):
-    """try: return D[key] [+ n]   except KeyError: pass | return None"""
+    """try: return D[key] [+ n]   except KeyError: pass | return None
+       try: x = self._to_decimal(e)   except Exception as e: six.raise_from(ValueError(...), e)"""
+    if (len(s.handlers) == 1 and not s.orelse and not s.finalbody and len(s.body) == 1
+            and isinstance(s.body[0], ast.Assign) and isinstance(s.handlers[0].type, ast.Name)
+            and s.handlers[0].type.id == "Exception" and len(s.handlers[0].body) == 1):
+        hb = s.handlers[0].body[0]
+        israise = is_raise(hb, "ValueError") or (
+            isinstance(hb, ast.Expr) and isinstance(hb.value, ast.Call) and isinstance(hb.value.func, ast.Attribute)
+            and hb.value.func.attr == "raise_from" and len(hb.value.args) == 2
+            and isinstance(hb.value.args[0], ast.Call) and isinstance(hb.value.args[0].func, ast.Name)
+            and hb.value.args[0].func.id == "ValueError")
+        a = s.body[0]
+        if not israise or len(a.targets) != 1 or not isinstance(a.targets[0], ast.Name):
+            bail("unsupported try statement", s)
+        got = []
+
+        def kv(t, ty):
+            got.append(ty)
+            return "Ok %s" % t
+        body = ex(fn, a.value, env, kv)
+        if len(got) != 1 or isinstance(got[0], tuple):
+            bail("unsupported try body", s)
+        env2 = dict(env)
+        env2[a.targets[0].id] = got[0]
+        return "bind (any_to_valueerror (%s)) (fun v_%s =>\n%s)" % (body, a.targets[0].id,
+                                                                  block(fn, list(rest), env2, kend))
     if (len(s.handlers) != 1 or s.orelse or s.finalbody or len(s.body) != 1 or not isinstance(s.body[0], ast.Return)
             or not isinstance(s.handlers[0].type, ast.Name) or s.handlers[0].type.id != "KeyError"
             or len(s.handlers[0].body) != 1):
@@ -928,7 +1105,7 @@ def translate_fn(cls, name, node):
 
     def fell(_env):
         if rty == "unit" and (cls, name) in MUTATES:
-            return "Ok (tt, v_%s)" % MUTATES[(cls, name)]     # implicit `return None`
+            return "Ok (tt%s)" % "".join(", v_%s" % m for m in MUTATES[(cls, name)])     # implicit `return None`
         bail("control falls off the end of %s.%s" % (cls, name))
     body = block(fn, list(node.body), env, fell)
     ps = []
@@ -943,8 +1120,8 @@ def translate_fn(cls, name, node):
             bail("property %s.%s is not a single pure expression" % (cls, name))
         return "Definition %s %s : %s :=\n%s." % (fname(cls, name), " ".join(ps), coqty(rty), body[3:])
     if (cls, name) in MUTATES:
-        mty = "ymd" if MUTATES[(cls, name)] == "self" and cls == "_ymd" else "pres"
-        return "Definition %s %s : R (%s * %s) :=\n%s." % (fname(cls, name), " ".join(ps), coqty(rty), mty, body)
+        mtys = " * ".join("ymd" if (m == "ymd" or (m == "self" and cls == "_ymd")) else "pres" for m in MUTATES[(cls, name)])
+        return "Definition %s %s : R (%s * %s) :=\n%s." % (fname(cls, name), " ".join(ps), coqty(rty), mtys, body)
     return "Definition %s %s : R (%s) :=\n%s." % (fname(cls, name), " ".join(ps), coqty(rty), body)
 
 
